@@ -429,8 +429,8 @@ fn rep_unary(i: &Instr, r: Rep) -> Option<Rep> {
             for b in body {
                 cur = rep_unary(b, cur)?;
             }
-            // the feedback edge goes to the leader, the output is the single-replica state stream
-            Rep::One
+            // the state stream leaves the single-replica leader through a shuffle
+            Rep::Unl
         }
         Instr::Iterate(_, body) => {
             if r != Rep::Unl {
